@@ -452,3 +452,17 @@ try:
        "            cstl_raw_array_qsort(\n                __cstl_raw_array_at(arr, size, m + 1), count - m - 1, size,\n                cmp, priv,\n                swap, tmp,\n                algo);\n            cstl_raw_array_qsort(\n                arr, m + 1, size,\n                cmp, priv,\n                swap, tmp,\n                algo);"))
 except (OSError, ValueError):
     pass
+
+# attributes on prototypes that promise the optimiser more than the functions keep (the library's object code is unchanged)
+M("c11-sort-leaf-attribute", "C11", "cstl_raw_array_sort declared __attribute__((leaf)): the caller's statics written by the comparison callback may be cached across the call",
+  ("include/cstl/array.h", "void cstl_raw_array_sort(\n    void * arr, size_t count, size_t size,", "__attribute__((nothrow, leaf)) void cstl_raw_array_sort(\n    void * arr, size_t count, size_t size,"))
+M("c01-find-leaf-attribute", "C01", "cstl_bintree_find declared __attribute__((leaf))",
+  ("include/cstl/bintree.h", "const void * cstl_bintree_find(\n    const struct cstl_bintree * bt, const void * e, const void ** p);", "__attribute__((nothrow, leaf)) const void * cstl_bintree_find(\n    const struct cstl_bintree * bt, const void * e, const void ** p);"))
+M("c01-foreach-leaf-attribute", "C01", "cstl_bintree_foreach declared __attribute__((leaf))",
+  ("include/cstl/bintree.h", "int cstl_bintree_foreach(const struct cstl_bintree * bt,", "__attribute__((nothrow, leaf)) int cstl_bintree_foreach(const struct cstl_bintree * bt,"))
+M("c04-foreach-const-leaf-attribute", "C04", "cstl_hash_foreach_const declared __attribute__((leaf))",
+  ("include/cstl/hash.h", "int cstl_hash_foreach_const(const struct cstl_hash * h,", "__attribute__((nothrow, leaf)) int cstl_hash_foreach_const(const struct cstl_hash * h,"))
+M("c07-push-leaf-attribute", "C07", "cstl_heap_push declared __attribute__((leaf))",
+  ("include/cstl/heap.h", "void cstl_heap_push(struct cstl_heap * h, void * e);", "__attribute__((nothrow, leaf)) void cstl_heap_push(struct cstl_heap * h, void * e);"))
+M("c13-foreach-leaf-attribute", "C13", "cstl_slist_foreach declared __attribute__((leaf))",
+  ("include/cstl/slist.h", "int cstl_slist_foreach(struct cstl_slist * sl,", "__attribute__((nothrow, leaf)) int cstl_slist_foreach(struct cstl_slist * sl,"))
